@@ -6,11 +6,11 @@ BASELINE_OFF = "cd /repo && cargo nextest run --workspace --no-fail-fast --tool-
 
 CHECKS = {
  "C01": dict(sim="store", level="exploration", ref="5 C01",
-   text="Seeded search over multi-key put/overwrite/remove/read histories on the real SwarmDriver + NodeRecordStore (real files, shipped encrypt-records configuration) with the simulator choosing which parked background task (file write, delete, completion notification) runs next and injecting disk-write errors; every read is checked against the set of values ever written for that key and, at quiescence, against a sequential map model. Sampling, not proof: a clean batch is evidence.",
+   text="Seeded search over multi-key put/overwrite/remove/read histories on the real SwarmDriver + NodeRecordStore (real files, shipped encrypt-records configuration) with the simulator choosing which parked background task (file write, delete, completion notification) runs next and injecting disk-write errors; every read is checked against the set of values ever written for that key and, at quiescence, against a sequential map model. Sampling, not proof: a clean batch is evidence. One run in eighty holds enough records for the periodic clean-up to apply (a cleaned-up key is a removed key).",
    note="Trusted: a gated task body is atomic w.r.t. other gated bodies (single-threaded runtime); same-key tasks kept in issue order in C01 (the property quantifies over orders between keys; C02 runs any order); the simulator replaces SwarmDriver::run; tmpfs file semantics; getrandom shim is the only entropy source.",
    technique="deterministic simulation: gate-scheduled background tasks + disk-fault injection, map-model oracle"),
  "C02": dict(sim="store", level="fault_enumeration", ref="5 C02",
-   text="Histories are sampled by seed; inside each history the crash space is enumerated: after every executed background task the directory is copied and a fresh NodeRecordStore opened on it, and for every executed record write every byte prefix of the new file (with and without zero-filled tail) and bit flips are probed (all prefixes in thorough, 6 per write in quick); sampled Crash steps restart the whole driver; parked tasks of one key run in any order, and in a fifth of the runs the store's capacity equals the number of keys so that restarts meet a store filled to capacity. Oracle: durable-file model (complete value / absent / torn).",
+   text="Histories are sampled by seed; inside each history the crash space is enumerated: after every executed background task the directory is copied and a fresh NodeRecordStore opened on it, and for every executed record write every byte prefix of the new file (with and without zero-filled tail) and bit flips are probed (all prefixes in thorough, 6 per write in quick); sampled Crash steps restart the whole driver; parked tasks of one key run in any order, and in a fifth of the runs the store's capacity equals the number of keys so that restarts meet a store filled to capacity. Oracle: durable-file model (complete value / absent / torn). A tenth of the runs move the node between networks (restart under another network id; nothing is required of that restart, everything of the later ones); a delete task scheduled by an acknowledgement for a key whose last operation is an accepted put does not update the durable model.",
    note="Crash model = process stop with surviving OS (completed fs::write durable; no power-loss/fsync model). Probes use NodeRecordStore::with_config on a copy; full-driver restarts go through the guarded constructor that mirrors build_node's store configuration.",
    technique="deterministic simulation: crash-point and torn-write enumeration per sampled history, durable-state oracle"),
  "C10": dict(sim="store", level="exploration", ref="5 C10",
@@ -18,15 +18,15 @@ CHECKS = {
    note="Trusted: as C01. Distances recomputed as sha256(a) xor sha256(b) by the harness. records_cache_size never 0.",
    technique="deterministic simulation: gate-scheduled background tasks + restarts, step-by-step capacity/eviction/metrics model"),
  "C03": dict(sim="node", level="exploration", ref="5 C03",
-   text="Seeded search over sequences of client uploads (all kinds, paid and unpaid) to one real Node + SwarmDriver + store with 7-40 simulated neighbours (sparse and full routing tables) and a record cache of 1, 2 or 25 entries, each paid upload carrying a payment condition vector (signatures, payee membership, payee closeness, undecodable payee, expiry/future dating, per-quote on-chain result, RPC failure, own quote issued for another address) with mostly exactly one condition broken; after each upload is fully processed the store delta, the result and the payment-received notification are compared with the statement.",
+   text="Seeded search over sequences of client uploads (all kinds, paid and unpaid) to one real Node + SwarmDriver + store with 7-40 simulated neighbours (sparse and full routing tables) and a record cache of 1, 2 or 25 entries, each paid upload carrying a payment condition vector (signatures, payee membership, payee closeness, undecodable payee, expiry/future dating, per-quote on-chain result, RPC failure, own quote issued for another address) with mostly exactly one condition broken; after each upload is fully processed the store delta, the result and the payment-received notification are compared with the statement. Quote forms include genuine paid quotes whose content address or timestamp was rewritten after signing; close peers leave the routing table between uploads and are then named as payees.",
    note="Trusted: the simulator is the event loop/transport/ledger (real handlers called through guarded pass-throughs; verifyPayment answered by the in-process ledger shim); quote timestamps >= 10 min from the expiry boundary; shipped cache size.",
    technique="deterministic simulation: real node handlers under a simulated transport/ledger, byzantine payment proofs, condition-vector oracle"),
  "C04": dict(sim="node", level="exploration", ref="5 C04",
-   text="Seeded search over record presentations (honest key, key of another record, random key, unparseable and oversized values) through the three entry paths (validate_and_store_record, RecordStore::put on the real store, replication fetch from a simulated holder); after each the store is compared with a model that only holds records under independently derived keys (sha3-256 of content / owner / label+owner), a refused presentation must be an error and change nothing, and reads between presentation and acceptance must not return unvalidated bytes.",
+   text="Seeded search over record presentations (honest key, key of another record, random key, unparseable and oversized values) through the three entry paths (validate_and_store_record, RecordStore::put on the real store, replication fetch from a simulated holder); after each the store is compared with a model that only holds records under independently derived keys (sha3-256 of content / owner / label+owner), a refused presentation must be an error and change nothing, and reads between presentation and acceptance must not return unvalidated bytes. Oversized values include one of exactly the maximum packet size; RecordStore::put must refuse them at the door.",
    note="Trusted: as C03. The size limit is checked on the RecordStore::put path only (where the code enforces it).",
    technique="deterministic simulation: byzantine (key, content) presentations on three entry paths, independent key-derivation oracle"),
  "C07": dict(sim="node", level="exploration", ref="5 C07",
-   text="Seeded search over paid uploads, unpaid updates and replicated copies of scratchpads (counters, signers, signature validity, content substituted under a genuine signature), transaction sets (incl. another owner's validly signed entries) and registers (op sets; owner, listed writer, stranger, and ops forged in a permitted writer's name); record cache of 1, 2 or 25 entries; configuration 'sequential' compares the store with a monotone/union model after every delivery, configuration 'concurrent' keeps 2-3 deliveries to one key in flight while the simulator interleaves the handling of their commands and disk writes in seeded order, and requires the order-independent merge at the end; configuration 'lagging_writes' validates deliveries one after another while disk writes and their acknowledgements are held back (the index lags what was accepted) and requires that an acknowledged delivery is what the node serves.",
+   text="Seeded search over paid uploads, unpaid updates and replicated copies of scratchpads (counters, signers, signature validity, content substituted under a genuine signature), transaction sets (incl. another owner's validly signed entries) and registers (op sets; owner, listed writer, stranger, and ops forged in a permitted writer's name); record cache of 1, 2 or 25 entries; configuration 'sequential' compares the store with a monotone/union model after every delivery, configuration 'concurrent' keeps 2-3 deliveries to one key in flight while the simulator interleaves the handling of their commands and disk writes in seeded order, and requires the order-independent merge at the end; configuration 'lagging_writes' validates deliveries one after another while disk writes and their acknowledgements are held back (the index lags what was accepted) and requires that an acknowledged delivery is what the node serves. Unsigned pads also come with counter 0; a twelfth of the sequential runs use a store of capacity 1 (every update meets a full store and concerns its farthest record).",
    note="Trusted: as C03. In the concurrent configuration equal-counter scratchpads may resolve either way.",
    technique="deterministic simulation: gate-scheduled interleaving of overlapping updates to one key, monotone/union model oracle"),
  "C05": dict(sim="getrecord", level="exploration", ref="5 C05",
@@ -34,11 +34,11 @@ CHECKS = {
    note="Trusted: the simulator plays libp2p's kad query engine by emitting the kad::Event values the engine emits; back-off retries only with a single caller (unseeded jitter).",
    technique="deterministic simulation: synthetic kad progress events in seeded order against the real accumulation handlers, per-caller quorum/merge oracle"),
  "C14": dict(sim="client", level="exploration", ref="5 C14",
-   text="Seeded search over inputs drawn around the self-encryption size-class boundaries (0..2 bytes, 3, k*MAX_CHUNK_SIZE +/- 1, random; random and repetitive content): the real encrypt() is run twice (chunk size, content addressing by an independent sha3-256, determinism), then the real Client::data_get_public reads the data back while the simulator completes the chunk queries in seeded order with duplicated replies; in mode fault one chunk query is answered not-found / timeout and the read must fail. Two builds are run: default (1 MiB chunks) and MAX_CHUNK_SIZE=1024, where inputs of 150-420 KiB need three data-map levels (four in the thorough tier; the harness counts levels itself).",
+   text="Seeded search over inputs drawn around the self-encryption size-class boundaries (0..2 bytes, 3, k*MAX_CHUNK_SIZE +/- 1, random; random and repetitive content): the real encrypt() is run twice (chunk size, content addressing by an independent sha3-256, determinism), then the real Client::data_get_public reads the data back while the simulator completes the chunk queries in seeded order with duplicated replies; in mode fault one chunk query is answered not-found / timeout and the read must fail. Two builds are run: default (1 MiB chunks) and MAX_CHUNK_SIZE=1024, where inputs of 150-420 KiB need three data-map levels (four in the thorough tier; the harness counts levels itself). A third of the round trips read back another way: data_get (private data map), file_download[_public] onto absent / longer / shorter / same-length destinations, dir_download[_public] through real self-encrypted archives; half of the failed reads are retried against honest holders and must then succeed.",
    note="Trusted: the simulator plays the holders and the kad query engine; MAX_CHUNK_SIZE is compile-time (two builds); CHUNK_DOWNLOAD_BATCH_SIZE fixed to 3; upload/payment paths not exercised.",
    technique="deterministic simulation: seeded completion order and failure of chunk fetches against the real client read path, round-trip oracle"),
  "C15": dict(sim="client", level="exploration", ref="5 C15",
-   text="Seeded search over client reads (chunk_get, data_get_public, fetch_and_decrypt_vault) against byzantine holders: one query answered with another valid chunk, a foreign chunk, a valid chunk under its own (other) key, the right bytes under the wrong kind or undecodable bytes; vault reads answered with seeded sets of scratchpads (valid with chosen counters, unsigned, signed by another key, inflated counter, another owner's, content substituted under the genuine counter and signature) from up to 8 peers, several holders returning byte-identical copies so that a version can reach the read's quorum, and any terminal event. Ok must hash to the requested address / equal the original data; a vault Ok must be the owner's validly signed pad with the highest counter among those received while the read was open, else Err.",
+   text="Seeded search over client reads (chunk_get, data_get_public, fetch_and_decrypt_vault) against byzantine holders: one query answered with another valid chunk, a foreign chunk, a valid chunk under its own (other) key, the right bytes under the wrong kind or undecodable bytes; vault reads answered with seeded sets of scratchpads (valid with chosen counters, unsigned, signed by another key, inflated counter, another owner's, content substituted under the genuine counter and signature) from up to 8 peers, several holders returning byte-identical copies so that a version can reach the read's quorum, and any terminal event. Ok must hash to the requested address / equal the original data; a vault Ok must be the owner's validly signed pad with the highest counter among those received while the read was open, else Err. Half of the failed chunk / data reads are followed by a retry of the same address against honest holders: Ok must be the data at the address (a forged answer must not have been cached).",
    note="Trusted: as C14.",
    technique="deterministic simulation: byzantine holder replies against the real client read path, authenticity oracle"),
  "C06": dict(sim="registers", level="exploration", ref="5 C06",
@@ -46,23 +46,23 @@ CHECKS = {
    note="Trusted: operation validity is decided from how the sim built the op, never by asking the code; under anyone-can-write every signer is valid; the transport is the simulator.",
    technique="deterministic simulation: simulated lossy/partitioned transport between real CRDT replicas, convergence + validity-set oracle"),
  "C08": dict(sim="fetcher", level="exploration", ref="5 C08",
-   text="Seeded search over advertisement lists from up to 4 holders (single-key and multi-key, overlapping, differing versions), completions, early completions, range and fullness updates and timer expiries against the real ReplicationFetcher in simulated time (deadlines aged through the guarded age hook), checked call by call against a queue/in-flight model: no fetch of a held version, range and farthest limits, no duplicate in-flight entry, parallel-fetch cap, closest-first, exits from the in-flight set, timeout reporting, and bounded liveness once faults stop.",
+   text="Seeded search over advertisement lists from up to 4 holders (single-key and multi-key, overlapping, differing versions), completions, early completions, range and fullness updates and timer expiries against the real ReplicationFetcher in simulated time (deadlines aged through the guarded age hook), checked call by call against a queue/in-flight model: no fetch of a held version, range and farthest limits, no duplicate in-flight entry, parallel-fetch cap, closest-first, exits from the in-flight set, timeout reporting, and bounded liveness once faults stop. Glue variant 2: mutable records updated in place through the real PutLocalRecord handler, then advertised in the version held - nothing may be fetched.",
    note="Trusted: age(d) on all stored Instant deadlines is observationally the clock advancing by d (deadlines kept >= 2.5 s from now, runs < 1 s real time); distances recomputed independently; where hash order decides between equal candidates the model adopts the observed choice.",
    technique="deterministic simulation: simulated time and holders against the real fetcher, queue/in-flight model oracle with bounded-liveness rounds"),
  "C18": dict(sim="bootcache", level="exploration", ref="5 C18",
-   text="Seeded search over 1-4 'processes', each a real BootstrapCacheStore on its own OS thread sharing one cache file; flusher threads park at guarded gates between the steps of sync_and_flush_to_disk / write and the simulator releases exactly one at a time (or abandons one = crash, re-creating the named temp file a kill would leave). Operations: add_addr in all address shapes, status updates, removals, clean-ups, flushes with and without clean-up, crafted files with last_seen placed >= 61 s either side of the expiry boundary, limits 1-5 peers / 1-3 addrs. Faults: truncated / bit-flipped / empty / wrong-schema / other-network files, future-dated stamps, killed writers; if a commit left the inode unchanged every prefix of the new content is loaded as a crash state. After every atomic action the real load is compared with an independent reader and the bounds / well-formedness / merge / atomic-replace rules are checked.",
+   text="Seeded search over 1-4 'processes', each a real BootstrapCacheStore on its own OS thread sharing one cache file; flusher threads park at guarded gates between the steps of sync_and_flush_to_disk / write and the simulator releases exactly one at a time (or abandons one = crash, re-creating the named temp file a kill would leave). Operations: add_addr in all address shapes, status updates, removals, clean-ups, flushes with and without clean-up, crafted files with last_seen placed >= 61 s either side of the expiry boundary, limits 1-5 peers / 1-3 addrs. Faults: truncated / bit-flipped / empty / wrong-schema / other-network files, future-dated stamps, killed writers; if a commit left the inode unchanged every prefix of the new content is loaded as a crash state. After every atomic action the real load is compared with an independent reader and the bounds / well-formedness / merge / atomic-replace rules are checked. After every step the bootstrap lookup of a starting node (PeersArgs::get_bootstrap_addr with one --peer address, no network) must succeed whatever the state of the file; one run in 150 uses the shipped limits with a well-formed file of 5000+ addresses (over 1 MiB).",
    note="Trusted: real threads are released one at a time through a condvar handshake (no sleeps decide outcomes); wall-clock stamps kept away from boundaries; a run is re-executed when preemption inside the clock-sensitive trim loop exceeded the stamp gap.",
    technique="deterministic simulation: gate-scheduled interleaving of real flusher threads on one file, file-corruption and crash faults, bounds/merge/atomic-replace model"),
  "C19": dict(sim="services", level="exploration", ref="5 C19",
-   text="Seeded search over sequences of antctl invocations (add, start, stop, remove, upgrade, status), each mirrored step by step from cmd/node.rs as a fresh 'process' (NodeRegistry::load, refresh, real add_node / ServiceManager operation, save) over a simulated OS implementing ServiceControl and RpcActions (installed definitions, process table, port allocators); the n-th OS/RPC call of an operation fails with an error the real implementation can return (one chosen step per plan has every failing-call index enumerated), external events (process death, manual uninstall) and registry-file corruption happen between steps, and a managed process can die right before the n-th OS/RPC call inside one invocation. After every invocation the registry file is checked against the simulated OS.",
+   text="Seeded search over sequences of antctl invocations (add, start, stop, remove, upgrade, status), each mirrored step by step from cmd/node.rs as a fresh 'process' (NodeRegistry::load, refresh, real add_node / ServiceManager operation, save) over a simulated OS implementing ServiceControl and RpcActions (installed definitions, process table, port allocators); the n-th OS/RPC call of an operation fails with an error the real implementation can return (one chosen step per plan has every failing-call index enumerated), external events (process death, manual uninstall) and registry-file corruption happen between steps, and a managed process can die right before the n-th OS/RPC call inside one invocation. After every invocation the registry file is checked against the simulated OS. `antctl status` runs the full refresh as shipped (the RpcClient that refresh_node_registry builds is swapped for the simulated RPC through a guarded factory seam); in a fifth of the runs the nodes live in another PID namespace (the pid reported over RPC is not the host pid).",
    note="Trusted: the antctl glue in cmd/node.rs hard-wires the real ServiceController/RpcClient and is mirrored, not run; std::thread::sleep waits are behind the trait (simulated time).",
    technique="deterministic simulation: simulated OS / RPC with failing-call injection under the real service-management code, registry-vs-OS oracle"),
  "C20": dict(sim="services", level="exploration", ref="5 C20",
-   text="Inside the C19 simulator, option vectors antctl's own command line accepts go through add -> [start -> stop] -> upgrade across process boundaries (saved registry), with and without injected failures; the simulated OS records the ServiceInstallCtx at install and upgrade; program, user, env, autostart, working dir and the parsed meaning of the argument lists (obtained by running the real antnode binary with a guarded print-and-exit hook) must be equal except where the lifecycle changes something explicitly (port pinned after a start), and the installed meaning must equal the intended configuration derived independently from the option vector.",
+   text="Inside the C19 simulator, option vectors antctl's own command line accepts go through add -> [start -> stop] -> upgrade across process boundaries (saved registry), with and without injected failures; the simulated OS records the ServiceInstallCtx at install and upgrade; program, user, env, autostart, working dir and the parsed meaning of the argument lists (obtained by running the real antnode binary with a guarded print-and-exit hook) must be equal except where the lifecycle changes something explicitly (port pinned after a start), and the installed meaning must equal the intended configuration derived independently from the option vector. Lifecycles restart stopped services; in failure-free lifecycles the port pinned by the upgrade must be the port the node reported last; log-file limits include 0.",
    note="Trusted: as C19; the hooked antnode binary is built from /repo's working tree by the check.",
    technique="deterministic simulation: persisted lifecycle under a simulated OS, translation check of argument lists through the real antnode parser"),
  "C09": dict(sim="cluster", level="exploration", ref="5 C09",
-   text="Seeded search over 2-3 full real nodes in one process (Node + SwarmDriver + store + fetcher each, routing tables containing each other): seeded client uploads of all kinds incl. divergent versions of one mutable record at different nodes, replication rounds (clock past the throttle, TriggerIntervalReplication, Replicate lists, GetReplicatedRecord fetches, store_replicated_in_record) over a simulated transport that delays, reorders, duplicates and loses messages, partitions pairs of nodes, and injects advertisements from a peer that is not among the closest; nodes are stopped and restarted from their directories, get responsible ranges, have a record cache of 1, 2 or 25 entries, and the first disk write of a replicated copy can fail once; after the faults stop, 6 clean rounds must leave byte-identical immutable records and converged mutable records in the index of every node for which the record is in range; every periodic Replicate list must equal the sender's index as it was when the trigger was handled, and every advertised content hash must be the hash of the record held.",
+   text="Seeded search over 2-3 full real nodes in one process (Node + SwarmDriver + store + fetcher each, routing tables containing each other): seeded client uploads of all kinds incl. divergent versions of one mutable record at different nodes, replication rounds (clock past the throttle, TriggerIntervalReplication, Replicate lists, GetReplicatedRecord fetches, store_replicated_in_record) over a simulated transport that delays, reorders, duplicates and loses messages, partitions pairs of nodes, and injects advertisements from a peer that is not among the closest; nodes are stopped and restarted from their directories, get responsible ranges, have a record cache of 1, 2 or 25 entries, and the first disk write of a replicated copy can fail once; after the faults stop, 6 clean rounds must leave byte-identical immutable records and converged mutable records in the index of every node for which the record is in range; every periodic Replicate list must equal the sender's index as it was when the trigger was handled, and every advertised content hash must be the hash of the record held. In two fifths of the runs the routing tables hold more peers than the close group (3-8 filler peers), ranges are set by peer rank, filler peers leave / join, and adverts also come from a peer that left; convergence is required exactly when all nodes are mutual replication targets (harness metric) and every replication target must be sent the node's list during the clean rounds.",
    note="Trusted: the simulator carries the same Request/Response values between the real handlers (libp2p stubbed); all nodes mutual replication candidates, spare capacity; restarts are clean stops (local work completes first, messages stay in transit); Instant deadlines aged through the guarded hook.",
    technique="deterministic simulation: several real nodes over a simulated lossy transport, bounded-convergence oracle after faults stop"),
 }
